@@ -125,6 +125,22 @@ def handle (op : String) (j : Json) : Except String Json := do
       | .stopStepGroup => "stopStepGroup" | .keyboardInterrupt => "keyboardInterrupt" | .error _ _ => "error"
     pure (Json.mkObj [("ret", optJ natJ m.ret), ("stdout", Json.str m.stdout), ("stderr", Json.str m.stderr),
                       ("pipeline_run", Json.str (kindOf (pipelineRun r)))])
+  | "phases" =>
+    -- `cli.main` after argument parsing with a fault possible in every phase:
+    -- what `config.init()` / `set_root_logger(…)` raise, what escapes the pipeline run
+    let fj ← j.getObjVal? "faults"
+    let cfg ← raisedOf (← fj.getObjVal? "config")
+    let log ← raisedOf (← fj.getObjVal? "logger")
+    let run ← raisedOf (← fj.getObjVal? "run")
+    let f : Faults := fun
+      | .configInit => cfg
+      | .setRootLogger => log
+      | .runPipeline => run
+    match mainPhases f with
+    | .returned m =>
+      pure (Json.mkObj [("outcome", Json.str "returned"), ("ret", optJ natJ m.ret), ("status", natJ (sysExit m.ret)),
+                        ("stdout", Json.str m.stdout), ("stderr", Json.str m.stderr)])
+    | .escaped _ => pure (Json.mkObj [("outcome", Json.str "escaped")])
   | "argv" =>
     let argv ← strsOf (← j.getObjVal? "argv")
     if !logValuesOk argv then throw "out of domain: --log value"
